@@ -714,17 +714,20 @@ impl Locomotive {
                     .with_context(|| format_dbg!())?;
             }
             ForceMaxSideEffect::UpdateMu => {
-                self.mu = self.mass.map(|mass| force_max / (mass * uc::ACC_GRAV))
+                self.mu = self
+                    .mass()
+                    .with_context(|| format_dbg!())?
+                    .map(|mass| force_max / (mass * uc::ACC_GRAV))
             }
             ForceMaxSideEffect::SetMuToNone => {
                 self.mu = None;
             }
             ForceMaxSideEffect::SetMassToNone => {
-                self.mass = None;
+                self.set_mass_to_none();
             }
             ForceMaxSideEffect::SetMassAndMuToNone => {
                 self.mu = None;
-                self.mass = None;
+                self.set_mass_to_none();
             }
         }
         self.force_max = force_max;
@@ -737,8 +740,16 @@ impl Locomotive {
         Ok(self.force_max)
     }
 
+    /// Makes the mass unknown: a mass derived from the constituent mass fields would
+    /// otherwise still be reported
+    fn set_mass_to_none(&mut self) {
+        self.mass = None;
+        self.expunge_mass_fields();
+    }
+
     pub fn check_force_max(&self) -> anyhow::Result<()> {
-        if let (Some(mu), Some(mass)) = (self.mu, self.mass) {
+        // the reported mass, i.e. including one derived from the constituent mass fields
+        if let (Some(mu), Some(mass)) = (self.mu, self.mass().with_context(|| format_dbg!())?) {
             ensure!(utils::almost_eq_uom(
                     &self.force_max,
                     &(mu * mass * uc::ACC_GRAV),
@@ -1170,7 +1181,7 @@ impl Locomotive {
             }
             MuSideEffect::SetMassToNone => {
                 self.mu = Some(mu);
-                self.mass = None;
+                self.set_mass_to_none();
                 Ok(())
             }
         }
